@@ -9,6 +9,8 @@ def sessNames (s : Sess) : List Bytes := [s.host, sidName s.sid]
 
 /-! ## ordered children (`DataNode::InsertOrderedChild`, `ReorderChild`) -/
 
+def removeFromIndexName : Bytes := "!Rmv".toUTF8.toList     -- PR_NAME_REMOVE_FROM_INDEX
+
 /-- first free auto-name `I<ctr>`, and the counter after it -/
 def autoName : Nat → Nat → List Node → Bytes × Nat
   | 0, ctr, _ => ((("I" ++ toString ctr).toUTF8.toList), ctr + 1)
@@ -28,12 +30,12 @@ def insertOrderedChild (sv : Server) (by_ : Nat) (parent : List Bytes) (d : Opti
       | some i => i
       | none => p.index.length
     let sv := putChild sv by_ parent (Node.fresh nm d) notifyChanged
+    -- `optInsertBefore == PR_NAME_REMOVE_FROM_INDEX`: the child is created but not indexed (insertIndex stays −1)
+    if before = removeFromIndexName then sv else
     let sv := setNode sv parent (fun p => p.setIndex (p.index.take insertIndex ++ [nm] ++ p.index.drop insertIndex))
     match getNode sv parent with
     | some p' => notifyIndex sv parent p' (instrOf 'i' insertIndex nm)
     | none => sv
-
-def removeFromIndexName : Bytes := "!Rmv".toUTF8.toList     -- PR_NAME_REMOVE_FROM_INDEX
 
 /-- `parent.ReorderChild(child, moveToBeforeThis, this)` -/
 def reorderChild (sv : Server) (parent : List Bytes) (child before : Bytes) : Server :=
